@@ -189,3 +189,60 @@ def run_readonly_history(seed, profile="summary", n_bundles=10, tid=None, hooks=
       rec.readonly_event(call, args)
     rec.bundle([['Calculate']], tag="quiet", clause="C29.quiet")
   return rec
+
+
+def run_script(name, tid=None, hooks=None):
+  """
+  A scripted history (harness/witness/<name>.json): the specific input of a known finding or of a
+  repaired defect, replayed on every run.  Steps: ["apply", [user actions]] | ["undo"] (undo the last
+  applied bundle) | ["redo"] (re-apply the stored actions of the bundle just undone) | ["reopen"] |
+  ["rebuild"] | ["calc"] | ["readonly", call, args].
+  """
+  import json, os    # pylint: disable=import-outside-toplevel,multiple-imports
+  path = os.path.join(os.path.dirname(os.path.abspath(__file__)), "witness", name + ".json")
+  script = json.load(open(path))
+  rec = Recorder(tid=tid or "script:%s-0" % name)
+  rec.keep_states = bool(hooks and hooks.get("keep_states"))
+  rec.state, rec.init_state, rec.schema, rec.init_schema = {}, {}, {}, {}
+  rec.bundle([['InitNewDoc']], tag="init")
+  last = None       # (event index, reply) of the last successfully applied bundle
+  undone = None
+  for step in script["steps"]:
+    kind = step[0]
+    if kind == "apply":
+      _, reply, exc = rec.bundle(step[1], note=uas_note(step[1]))
+      if exc is None:
+        last = (len(rec.events), reply)
+      else:
+        rec.bundle([['Calculate']], tag="quiet", clause="C04.quiet")
+    elif kind == "undo" and last:
+      rec.bundle([['ApplyUndoActions', last[1]['undo']]], tag="undo", of=last[0])
+      undone, last = last, None
+    elif kind == "redo" and undone:
+      _, reply, exc = rec.bundle([['ApplyDocActions', undone[1]['stored']]], tag="redo", of=undone[0])
+      if exc is None:
+        last = (len(rec.events), reply)
+      undone = None
+    elif kind == "reopen":
+      rec.reopen_event()
+    elif kind == "rebuild":
+      rec.rebuild_event()
+    elif kind == "calc":
+      rec.bundle([['Calculate']], tag="quiet", clause=step[1] if len(step) > 1 else "C04.quiet")
+    elif kind == "readonly":
+      rec.readonly_event(step[1], step[2])
+    elif kind == "fault":
+      # ["fault", kind, k, [user actions]]: the bundle with InjectedFault armed, then Calculate
+      import faults    # pylint: disable=import-outside-toplevel
+      fw = getattr(rec, "_fw", None) or faults.FaultWrapper(rec.eng)
+      rec._fw = fw
+      fw.arm(step[1], step[2])
+      ev, reply, exc = rec.bundle(step[3], note=uas_note(step[3]) + ["<fault %s %d>" % (step[1], step[2])])
+      ev["fault"] = [step[1], step[2]]
+      ev["fired"] = bool(fw.fired)
+      fw.reset()
+      if exc is not None:
+        rec.bundle([['Calculate']], tag="quiet", clause="C04.quiet")
+      else:
+        last = (len(rec.events), reply)
+  return rec
